@@ -19,3 +19,17 @@ func (h capHook) Func(ctx hooking.HookCtx) {
 		panic(capStop{})
 	}
 }
+
+type cap31 struct{ w *ep31 }
+
+func (h cap31) Func(ctx hooking.HookCtx) {
+	if ctx.Pos != timing.HookPosBeforeEvent {
+		return
+	}
+
+	h.w.events++
+
+	if h.w.events > 300000 {
+		panic(capStop{})
+	}
+}
